@@ -97,6 +97,7 @@ type Report struct {
 	ModelReject   int
 	DontCare      map[string]int
 	ValueChecks   int
+	ParityChecks  int
 	Sigs          map[string]bool
 	Violations    []Violation
 	Known         map[string]int
@@ -388,7 +389,11 @@ func runBatch(cfg *Config, rep *Report, ks *known.Set, cases []*Case) error {
 			}
 			for _, mode := range cfg.Modes {
 				rt := rootTypeOf(c)
-				cmds = append(cmds, batch.NewCmd(len(cmds), c.prog.ID, rt, mode, raw))
+				send, dmode := raw, mode
+				if mode == "yamlblock" {
+					send, dmode = sg.ToYAML(d.V, sg.YAMLBlock), "yaml"
+				}
+				cmds = append(cmds, batch.NewCmd(len(cmds), c.prog.ID, rt, dmode, send))
 				pend = append(pend, pending{c: c, prog: c.prog, doc: d, mr: mr, mode: mode, raw: raw})
 				if c.Pair != nil {
 					prt := rootTypeOf(c.Pair)
@@ -413,11 +418,10 @@ func runBatch(cfg *Config, rep *Report, ks *known.Set, cases []*Case) error {
 		res := results[i]
 		decide(cfg, rep, ks, p, res)
 		if cfg.Parity && p.mode == "json" && !p.pair {
-			// find the yaml twin (next command with same doc & program)
-			for k := i + 1; k < len(pend) && k < i+4; k++ {
-				if pend[k].prog == p.prog && pend[k].mode == "yaml" && string(pend[k].raw) == string(p.raw) {
-					parity(cfg, rep, ks, p, res, results[k])
-					break
+			// the yaml twins are the next commands with the same document and program
+			for k := i + 1; k < len(pend) && k < i+6; k++ {
+				if pend[k].prog == p.prog && strings.HasPrefix(pend[k].mode, "yaml") && string(pend[k].raw) == string(p.raw) {
+					parity(cfg, rep, ks, pend[k], res, results[k])
 				}
 			}
 		}
@@ -481,6 +485,9 @@ func decide(cfg *Config, rep *Report, ks *known.Set, p pending, res *batch.Res) 
 		}
 		addViolation(cfg, rep, mkViolation(p, res.V, p.mr.V.String(), res.V, res.Err+"\n"+res.Stack+res.Fatal))
 		return
+	}
+	if cfg.Parity && strings.HasPrefix(p.mode, "yaml") {
+		return // the YAML path is judged against the JSON path (parity), not against the model
 	}
 	toolAccept := res.V == "ok"
 	if toolAccept {
@@ -582,17 +589,100 @@ func explainValue(ks *known.Set, p pending, diffs []model.OutDiff, out any, base
 	return ""
 }
 
+// yamlHazard names the recorded YAML-path finding a document is exposed to, or "".
+func yamlHazard(ks *known.Set, root *sg.Schema, doc any) string {
+	sig := ""
+	for _, st := range docgen.Sites(root, doc) {
+		if a, ok := st.V.([]any); ok && ks.Has("yaml-null-elements") {
+			for _, e := range a {
+				if e == nil {
+					sig = "yaml-null-elements"
+				}
+			}
+		}
+		if st.S.HasEnum && ks.Has("yaml-mixed-enum-int") {
+			kinds := map[string]bool{}
+			for _, e := range st.S.Enum {
+				kinds[jsonx.Kind(e)] = true
+			}
+			wrapped := len(kinds) > 1 || (len(st.S.Types) == 1 && st.S.Types[0] == "null")
+			if n, ok := st.V.(jsonx.Num); ok && wrapped && n.IsIntegral() {
+				sig = "yaml-mixed-enum-int"
+			}
+		}
+	}
+	return sig
+}
+
 func parity(cfg *Config, rep *Report, ks *known.Set, p pending, j, y *batch.Res) {
-	if j == nil || y == nil {
+	if j == nil || y == nil || j.V == "missing" || y.V == "missing" || j.V == "noprog" {
 		return
 	}
-	if (j.V == "ok") != (y.V == "ok") {
-		addViolation(cfg, rep, mkViolation(p, "parity", "json:"+j.V, "yaml:"+y.V, j.Err+" | "+y.Err))
+	rep.ParityChecks++
+	bad, exp, obs, det := false, "", "", ""
+	switch {
+	case y.V == "panic" || y.V == "fatal":
+		bad, exp, obs, det = true, "json:"+j.V, p.mode+":"+y.V, y.Err+"\n"+y.Stack
+	case (j.V == "ok") != (y.V == "ok"):
+		bad, exp, obs, det = true, "json:"+j.V, p.mode+":"+y.V, "json err="+j.Err+" | yaml err="+y.Err
+	case j.V == "ok" && j.Out != y.Out:
+		bad, exp, obs, det = true, j.Out, y.Out, "decoded values differ between the JSON and the YAML path"
+	}
+	if !bad {
 		return
 	}
-	if j.V == "ok" && j.Out != y.Out {
-		addViolation(cfg, rep, mkViolation(p, "parity", j.Out, y.Out, "decoded values differ"))
+	if sig := yamlHazard(ks, p.c.Root, p.doc.V); sig != "" {
+		rep.Known[sig]++
+		return
 	}
+	// A recorded JSON-side finding makes the JSON path itself deviate from the model: the divergence is that finding.
+	if j.V == "panic" {
+		if sig := explainPanic(ks, p, j); sig != "" {
+			rep.Known[sig]++
+			return
+		}
+	}
+	if (j.V == "ok" || j.V == "err") && (y.V == "ok" || y.V == "err") && (j.V != y.V) {
+		// both paths follow their own defect-model prediction: JSON with every listed defect, YAML without the
+		// defects that only exist on the JSON path (UnmarshalJSON is called for null, UnmarshalYAML is not)
+		dj, dy := &model.Defects{}, &model.Defects{}
+		var names []string
+		for sig, set := range VerdictDefects {
+			if ks.Has(sig) {
+				set(dj)
+				names = append(names, sig)
+				if sig != "null-object-zero" && sig != "null-enum-default" {
+					set(dy)
+				}
+			}
+		}
+		rj, ry := model.Eval(p.c.Root, p.doc.V, dj), model.Eval(p.c.Root, p.doc.V, dy)
+		if rj.V != model.DontCare && ry.V != model.DontCare && (rj.V == model.Accept) == (j.V == "ok") && (ry.V == model.Accept) == (y.V == "ok") {
+			sort.Strings(names)
+			rep.Known["json-only:null-object-zero/null-enum-default"]++
+			return
+		}
+	}
+	if j.V == "ok" || j.V == "err" {
+		jAcc := j.V == "ok"
+		if jAcc != (p.mr.V == model.Accept) {
+			if sig := Explain(ks, p.c.Root, p.doc.V, jAcc); sig != "" {
+				rep.Known[sig]++
+				return
+			}
+		} else if jAcc && y.V == "ok" {
+			if out, err := jsonx.Parse([]byte(j.Out)); err == nil {
+				oo := model.OutOpts{SkipDefaults: true, SkipAddProps: true}
+				if diffs := model.CompareOut(p.c.Root, p.doc.V, out, oo); len(diffs) > 0 {
+					if sig := explainValue(ks, p, diffs, out, oo); sig != "" {
+						rep.Known[sig]++
+						return
+					}
+				}
+			}
+		}
+	}
+	addViolation(cfg, rep, mkViolation(p, "parity", exp, obs, det))
 }
 
 func pairCompare(cfg *Config, rep *Report, ks *known.Set, a pending, ra *batch.Res, b pending, rb *batch.Res) {
